@@ -507,9 +507,21 @@ def check_oracles(res, ctx, case, rows, opts, dump, errors, label):
                       dict(rep, expected_spec=repr(exp_keys[:6]), actual_impl=repr(got_keys[:6])))
         return
     if not opts.get("no_sort"):
-        sds = [r["sd"] for r in rows]
-        if sds != sorted(sds):
-            res.violation("failing-input", "output not ordered by settlement date", dict(rep, actual_impl=sds))
+        # settlement date, then (when the date texts are known) the date text,
+        # trades before FX rows, FX buys before FX sells
+        def okey(r):
+            fxk = 0 if not r["sec"].endswith(".FX") else (1 if r["act"] == "Buy" else 2)
+            return (r["sd"], r.get("sdt") or "", fxk) if "sdt" in r else (r["sd"],)
+        keys = [okey(r) for r in rows]
+        if "sdt" not in (rows[0] if rows else {}):
+            # CSV output has no date text: FX rows settle on their trade date, compare FX rows among themselves
+            fx = [(r["sd"], 1 if r["act"] == "Buy" else 2) for r in out_fx]
+            bad = any(a[0] == b[0] and a[1] > b[1] for a, b in zip(fx, fx[1:]))
+        else:
+            bad = False
+        if keys != sorted(keys) or bad:
+            res.violation("failing-input", "output not ordered by settlement date / FX buys before FX sells",
+                          dict(rep, actual_impl=repr([(r["sec"], r["sd"], r["act"]) for r in rows][:12])))
             return
     # USD cash
     if opts.get("no_fx"):
@@ -765,6 +777,7 @@ def corpus():
     blank_before_qty = [("named", h) for h in BASE_HEADERS[:5]] + [("extra", None, "junk")] + [("named", h) for h in BASE_HEADERS[5:]]
     blank_front = [("extra", None, "junk")] + canonical_layout()
     style = {"num": "float", "acct_int": False, "empty_str": False}
+    dup_qty = [("extra", {"s": "Quantity"}, "num")] + canonical_layout() + [("extra", {"s": "Price"}, "num")]
     conv = [mk(kind="fxt", action="FXT", cur="CAD", net="-1350.00", sym="", qty="0", price="0", comm="0"),
             mk(kind="fxt", action="FXT", cur="USD", net="1000.00", sym="", qty="0", price="0", comm="0"),
             mk(kind="div", action="DIV", cur="USD", net="12.34", qty="0", price="0", comm="0"),
@@ -776,6 +789,8 @@ def corpus():
         {"acts": conv, "style": style, "layout": canonical_layout(), "layout2": list(reversed(canonical_layout())), "sort": True, "wf": True},
         {"acts": conv + simple, "style": dict(style, num="str"), "layout": canonical_layout(), "layout2": blank_front, "sort": False, "wf": True},
         {"acts": [], "style": style, "layout": canonical_layout(), "layout2": blank_front, "sort": True, "wf": True},
+        # a duplicated named header: the later column wins (same layout twice: no layout oracle)
+        {"acts": simple, "style": style, "layout": dup_qty, "layout2": dup_qty, "sort": True, "wf": False},
     ]
 
 
@@ -813,7 +828,7 @@ def run(res, ctx):
     init_ctx(ctx)
     q = tier == "quick"
     run_sheet_batch(res, ctx, corpus())
-    n_mem = 700 if q else 12000
+    n_mem = 2100 if q else 14000
     batch = 700
     done = 0
     while done < n_mem:
@@ -825,7 +840,7 @@ def run(res, ctx):
                           "layout2": gen_layout(rng), "sort": rng.random() < 0.7, "wf": activities_well_formed(acts)})
         run_sheet_batch(res, ctx, cases)
         done += len(cases)
-    n_file = 200 if q else 3000
+    n_file = 400 if q else 3000
     fcases = []
     for _ in range(n_file):
         wf = rng.random() < 0.75
